@@ -137,6 +137,22 @@ private:
             return chol_MBM.info();
         }
 
+        // The block must have full column rank: a zero or negative pivot means that its
+        // columns are (numerically) linearly dependent, and scaling by 1/sqrt(pivot) would
+        // produce meaningless vectors
+        {
+            const Vector pivots = chol_MBM.vectorD();
+            const Scalar pivot_max = pivots.size() > 0 ? pivots.cwiseAbs().maxCoeff() : Scalar(0);
+            for (int i = 0; i < pivots.size(); i++)
+            {
+                if (!(pivots(i) > Eigen::NumTraits<Scalar>::epsilon() * pivot_max))
+                {
+                    m_info = Eigen::NumericalIssue;
+                    return Eigen::NumericalIssue;
+                }
+            }
+        }
+
         SparseComplexMatrix Upper_MBM = chol_MBM.matrixU().template cast<Complex>();
         ComplexVector D_MBM_vec = chol_MBM.vectorD().template cast<Complex>();
 
